@@ -3,6 +3,8 @@ package props
 // C06 — every offset handed out or persisted is a valid, untorn DCP resume point (DESIGN §5 C06).
 
 import (
+	"encoding/json"
+	"strings"
 	"testing"
 
 	"pgregory.net/rapid"
@@ -30,4 +32,41 @@ func TestC06_History(t *testing.T) {
 
 func init() {
 	registerReplay("c06hist", histReplayer(func() bool { return false }, "C06"))
+}
+
+// ---- the branch after a server-requested rollback (Layer B: real client.OpenStream + observer on the simulated node) ----
+// C06's vbUUID clause through the second place where the library learns a branch: after a rollback the stream runs on
+// the branch named by the first failover entry of the SECOND response; every offset handed out from then on must carry
+// that vbUUID together with the event's own seqno and snapshot - not the uuid the re-request was sent with.
+func TestC06_RollbackBranch(t *testing.T) {
+	rapid.Check(t, func(rt *rapid.T) {
+		sc := c08Gen(rt)
+		sc.Second = "ok"
+		journal("C06", "c06rollback", sc)
+		d, _ := c08Exec(sc)
+		journalDone()
+		if strings.Contains(d, "delivered with vbUUID") || strings.Contains(d, "delivered with offset") {
+			violation(rt, "C06", "c06rollback", sc, "after a server-requested rollback: %s (an offset mixing one branch's vbUUID with another branch's position)", d)
+		}
+		older := len(sc.Log) >= 2 && sc.R < sc.Log[0][1]
+		labs := []string{"rollback_branch_cases"}
+		if older {
+			labs = append(labs, "rollback_point_on_older_branch")
+		}
+		record("C06", sc, older && len(sc.Events) > 0, labs...)
+	})
+}
+
+func init() {
+	registerReplay("c06rollback", func(raw json.RawMessage) string {
+		var sc c08Scenario
+		if err := json.Unmarshal(raw, &sc); err != nil {
+			return err.Error()
+		}
+		d, _ := c08Exec(sc)
+		if strings.Contains(d, "delivered with vbUUID") || strings.Contains(d, "delivered with offset") {
+			return d
+		}
+		return ""
+	})
 }
